@@ -1,8 +1,10 @@
 -- every property module, so that setup builds all proofs once
 import MRL.Props.C01
 import MRL.Props.C01Journal
+import MRL.Props.C03
 import MRL.Props.C04
 import MRL.Props.C05
+import MRL.Props.C06
 import MRL.Props.C07
 import MRL.Props.C08
 import MRL.Props.C11
